@@ -44,15 +44,27 @@ fn cycle_refs<T>(this: Link<T>) -> HashMap<Link<T>, usize> {
     let mut cycle_owned_refs = HashMap::default();
     let mut discovered = vec![this];
     let mut visited = HashSet::default();
+    #[cfg(cactusref_verif)]
+    {
+        use core::sync::atomic::Ordering;
+        crate::__verif::bump(&crate::__verif::TRACE_CALLS);
+        crate::__verif::TRACE_LAST_START.store(this.as_ptr() as usize, Ordering::Relaxed);
+    }
 
     // crawl the graph
     while let Some(node) = discovered.pop() {
+        #[cfg(cactusref_verif)]
+        crate::__verif::bump(&crate::__verif::TRACE_POPS);
         if visited.contains(&node) {
             continue;
         }
         visited.insert(node);
+        #[cfg(cactusref_verif)]
+        crate::__verif::bump(&crate::__verif::TRACE_VISITS);
 
         let links = unsafe { node.as_ref().links().borrow() };
+        #[cfg(cactusref_verif)]
+        crate::__verif::add(&crate::__verif::TRACE_EDGES, links.iter().len());
         for (&link, &strong) in links.iter() {
             if let Kind::Forward | Kind::Loopback = link.kind() {
                 cycle_owned_refs
